@@ -1,0 +1,97 @@
+//go:build verif
+
+package compile
+
+import "sort"
+
+// VerifLinkOrder lets a verification harness choose the orders that are
+// otherwise left to Go's map iteration: given the sorted names of one kind
+// ("includes", "types", "constants", "services") of one module, it returns
+// them in the order they should be visited.
+type VerifLinkOrder func(modulePath, kind string, names []string) []string
+
+// CompileWithLinkOrder behaves like Compile, but walks the included modules
+// and links each module's types, constants and services in the orders chosen
+// by the callback, before running the normal link pass (which then finds
+// everything linked already and only performs its cycle check). It adds no
+// behaviour of its own: every order it can produce is one Compile itself can
+// take.
+func CompileWithLinkOrder(path string, order VerifLinkOrder, opts ...Option) (*Module, error) {
+	c := newCompiler()
+	for _, opt := range opts {
+		opt(&c)
+	}
+
+	root, err := c.load(path)
+	if err != nil {
+		return nil, err
+	}
+
+	pick := func(m *Module, kind string, names []string) []string {
+		sort.Strings(names)
+		return order(m.ThriftPath, kind, names)
+	}
+
+	// Same breadth-first walk as Module.Walk, with the include order chosen.
+	visited := make(map[string]struct{})
+	toVisit := []*Module{root}
+	for len(toVisit) > 0 {
+		m := toVisit[0]
+		toVisit = toVisit[1:]
+		if _, ok := visited[m.ThriftPath]; ok {
+			continue
+		}
+		visited[m.ThriftPath] = struct{}{}
+
+		incNames := make([]string, 0, len(m.Includes))
+		for name := range m.Includes {
+			incNames = append(incNames, name)
+		}
+		for _, name := range pick(m, "includes", incNames) {
+			toVisit = append(toVisit, m.Includes[name].Module)
+		}
+
+		if err := c.verifLinkOrdered(m, pick); err != nil {
+			return root, compileError{Target: m.ThriftPath, Reason: err}
+		}
+		if err := c.link(m); err != nil {
+			return root, compileError{Target: m.ThriftPath, Reason: err}
+		}
+	}
+	return root, nil
+}
+
+func (c compiler) verifLinkOrdered(m *Module, pick func(*Module, string, []string) []string) error {
+	typeNames := make([]string, 0, len(m.Types))
+	for name := range m.Types {
+		typeNames = append(typeNames, name)
+	}
+	for _, name := range pick(m, "types", typeNames) {
+		t, err := m.Types[name].Link(m)
+		if err != nil {
+			return compileError{Target: name, Reason: err}
+		}
+		m.Types[name] = t
+	}
+
+	constNames := make([]string, 0, len(m.Constants))
+	for name := range m.Constants {
+		constNames = append(constNames, name)
+	}
+	for _, name := range pick(m, "constants", constNames) {
+		if err := m.Constants[name].Link(m); err != nil {
+			return compileError{Target: name, Reason: err}
+		}
+	}
+
+	svcNames := make([]string, 0, len(m.Services))
+	for name := range m.Services {
+		svcNames = append(svcNames, name)
+	}
+	for _, name := range pick(m, "services", svcNames) {
+		if err := m.Services[name].Link(m); err != nil {
+			return compileError{Target: name, Reason: err}
+		}
+	}
+	return nil
+}
